@@ -6,6 +6,7 @@ import (
 )
 
 var vHarnesses = map[string]func(p []int){
+	"H_C15_rounds": func(p []int) { H_C15_rounds(p[0]) },
 	"H_C09_seq":     func(p []int) { H_C09_seq(p[0]) },
 	"H_C09_single":  func(p []int) { H_C09_single() },
 	"H_C09_fast":    func(p []int) { H_C09_fast(p[0]) },
